@@ -10,6 +10,17 @@ TB = ('Trusted: Lean 4.33 kernel; axioms propext/Classical.choice/Quot.sound onl
       'the correspondence harness (harness/, lean/Driver.lean). ')
 
 CHECKS = {
+    'C02': dict(
+        text='Theorems (Props/C02.lean): over the regenerated selection program the weights, M, sqrtM and bandwidth left by fit '
+             'belong to one iterate for every budget/history/flag combination (with and without restoration; the incoherent '
+             'early-stop branch is proved unreachable); (K+lam I)alpha=Y iff K alpha = Y - lam alpha; uniqueness of the ridge solution '
+             'for PSD K and lam>0 (so solve/cholesky/lu must agree). Correspondence in float64 against real fits: iterate tags vs the '
+             'Lean machine and the residual of the ridge system with K recomputed from the stored state by an independent reference, '
+             'under a computed rounding allowance.',
+        note=TB + 'Modelled, not verified: torch.linalg.solve/cholesky/lu_factor (exact solve; checked through residuals), '
+             'floating-point rounding (absorbed by the allowance of DESIGN 4.3), PSD of the Gram matrix (hypothesis; C05 leaves it unproved).',
+        technique='Lean 4 proof (loop invariant over regenerated program + matrix algebra) + float64 differential check with property oracle',
+        ref='DESIGN.md §6 C02'),
     'C03': dict(
         text='Theorems (Props/C03.lean) over the Lean interpreter of the selection program regenerated from RFM.fit / '
              'update_best_params / _should_early_stop on every run: for every iteration budget and every real score history the '
